@@ -87,3 +87,67 @@ func VerifC02_Refreshed() {
 	zzverif.Assert(verifMarshal(sess) == verifMarshal(restored), "resuming the restored session resulted in different session JSON")
 	zzverif.Cover("resumed-equal")
 }
+
+// VerifC02_ParentRun: a session started by a flow_action trigger (a parent
+// session's start_session: history and the parent run's summary travel in the
+// trigger) that refers to its parent (@parent.contact.name, @parent.results)
+// before and after a wait: the session kept in memory and the session read
+// back from its JSON at the wait resume identically (events and session
+// JSON), with an arbitrary parent contact name.
+// cover: resumed-equal
+func VerifC02_ParentRun() {
+	sa := verifNewAssets()
+	// the parent's flow: saves a result, then completes
+	sa.add(verifFlowOf(1, verifPlainNodeWithActions(1, 0, -1, actions.NewSetRunResult("pr", "Age", "33", ""))))
+	cats := []flows.Category{routers.NewCategory("c0", "Any", verifExitUUID(9, 0, 0))}
+	router := routers.NewSwitch(waits.NewMsgWait(nil, nil), "Reply", cats, "@input.text", nil, "c0")
+	n0 := definition.NewNode(verifNodeUUID(0, 0), []flows.Action{
+		actions.NewSendMsg("m1", "sent here by @parent.contact.name who is @parent.results.age", nil, nil, false),
+	}, router, []flows.Exit{definition.NewExit(verifExitUUID(9, 0, 0), verifNodeUUID(0, 1))})
+	n1 := definition.NewNode(verifNodeUUID(0, 1), []flows.Action{
+		actions.NewSendMsg("m2", "still by @parent.contact.name who is @parent.results.age", nil, nil, false),
+	}, nil, []flows.Exit{definition.NewExit(verifExitUUID(9, 0, 1), "")})
+	f0, err := definition.NewFlow(verifFlowUUID(0), "F0", "eng", flows.FlowTypeMessaging, 1, 10, definition.NewLocalization(), []flows.Node{n0, n1}, nil, nil)
+	zzverif.Assert(err == nil, "setup: flow did not validate")
+	sa.add(f0)
+	eng := verifEngine(10, 10)
+	env := envs.NewBuilder().Build()
+
+	zzverif.ResetEnv()
+	parentContact := flows.NewEmptyContact(sa, "J"+verifAsciiName("parent-name"), i18n.Language("eng"), nil)
+	parent, _, err := eng.NewSession(sa, triggers.NewBuilder(env, assets.NewFlowReference(verifFlowUUID(1), "F1"), parentContact).Manual().Build())
+	zzverif.Assert(err == nil && len(parent.Runs()) == 1, "setup: parent session did not run")
+	summary := verifMarshal(parent.Runs()[0].Snapshot())
+
+	child := flows.NewEmptyContact(sa, "Bob", i18n.Language("eng"), nil)
+	trig := triggers.NewBuilder(env, assets.NewFlowReference(verifFlowUUID(0), "F0"), child).FlowAction(flows.NewChildHistory(parent), []byte(summary)).Build()
+	sess, sp0, err := eng.NewSession(sa, trig)
+	zzverif.Assert(err == nil && sess.Status() == flows.SessionStatusWaiting, "setup: session not waiting")
+	zzverif.Assert(len(verifC02Texts(sp0)) == 1, "setup: no message before the wait")
+	m := verifMarshal(sess)
+	restored, err := eng.ReadSession(sa, []byte(m), assets.PanicOnMissing)
+	zzverif.Assert(err == nil, "a marshalled waiting session could not be read back")
+	zzverif.Assert(verifMarshal(restored) == m, "a session read back from its JSON marshals to different JSON")
+
+	resume := func() flows.Resume {
+		return resumes.NewMsg(nil, nil, flows.NewMsgIn(flows.MsgUUID("msg3"), urns.URN("twitter:bob"), nil, "hi", nil))
+	}
+	zzverif.ResetEnv()
+	sp1, err1 := sess.Resume(resume())
+	zzverif.ResetEnv()
+	sp2, err2 := restored.Resume(resume())
+	zzverif.Assert(err1 == nil && err2 == nil, "resume failed")
+	zzverif.Assert(verifEventsJSON(sp1) == verifEventsJSON(sp2), "resuming the restored session produced different events than resuming the session kept in memory")
+	zzverif.Assert(verifMarshal(sess) == verifMarshal(restored), "resuming the restored session resulted in different session JSON")
+	zzverif.Cover("resumed-equal")
+}
+
+func verifC02Texts(sp flows.Sprint) []string {
+	var out []string
+	for _, e := range sp.Events() {
+		if e.Type() == "msg_created" {
+			out = append(out, verifMarshal(e))
+		}
+	}
+	return out
+}
